@@ -265,11 +265,15 @@ def is_f7(sc, seg, ln):
 
 
 def is_f14(sc, seg, ln):
-    """F14: a data segment that also carries SACK blocks exceeds the path MTU by no more than the SACK option."""
+    """F14: on a path whose MTU leaves no room for any payload next to a full option area (MTU - IP header - 20 - 40 <= 0, i.e. IPv4 MTU <= 80 / IPv6 MTU <= 100: the budget
+    is clamped to 1 byte, "make sure we can transmit at least one byte"), a 1-byte data segment that also carries SACK
+    blocks exceeds the path MTU by no more than the SACK option.  With room for payload the budget reserves the option area."""
     ev = seg[ln] if ln < len(seg) else {}
-    if ev.get('ev') != 'emit' or ev.get('len', 0) <= 0 or not ev.get('sack'):
+    if ev.get('ev') != 'emit' or ev.get('len', 0) != 1 or not ev.get('sack'):
         return False
     mtu = seg[0].get('mtu', 1500)
+    if mtu > (100 if seg[0].get('v') == 6 else 80):
+        return False
     return ev['iplen'] > mtu and ev['iplen'] - (8 * len(ev['sack']) + 4) <= mtu
 
 
